@@ -447,6 +447,17 @@ def run(tier, seed):
     with Scratch() as work:
         res = pmap(drive_shape, [(s, seed * 100000 + i, nper) for i, s in enumerate(shapes)], chunksize=1)
         cases = [c for cs in res for c in cs]
+        # the structure of every PatternedTensor the library builds while the repository's OWN tensor tests run (hook log
+        # collected by the pytest plugin harness/tracer_sp.py): the representation invariant must hold for each
+        rt = repo_tests_traced(work, ['test/test_indices.py', 'test/test_multi.py', 'test/test_semirings.py'] +
+                               ([] if tier == 'quick' else ['test/test_sum_product.py', 'test/test_formats.py']))
+        rp = [c for c in rt.get('patterns', []) if c.get('kind') == 'wf']
+        if any('error' in c for c in rt.get('patterns', [])):
+            raise MachineryFailure('tracer could not read the pattern log: ' + str(rt['patterns'][:1]))
+        for c in rp:
+            c['tag'] = ['wf', 'repo_tests']
+        o.extra['structures_built_during_repo_tests'] = len(rp)
+        cases = cases + rp
         verdicts, st, tr, _ = judge_batch(work / 'judge', 'Trace_Tensor', cases, per_shard_min=400, heap='3g')
         o.states += st
         o.transitions += tr
